@@ -142,7 +142,7 @@ class DimSim(Engine):
                 f = rng.choice(MUTS)
                 op = {"op": "mut", "f": f, "s": s, "inplace": rng.chance(0.5), "dim": rng.randint(0, nd - 1),
                       "dims": rng.subset(range(nd), 0, 3), "target": rng.randint(0, 5), "keyform": rng.choice(["letter", "name"]),
-                      "pos": rng.randint(0, 5), "probe": self._gen_probe(rng, nd)}
+                      "pos": rng.randint(-5, 5), "probe": self._gen_probe(rng, nd)}
                 ops.append(op)
             elif kind == "subset":
                 keys = None if rng.chance(0.3) else [[rng.randint(0, 5), rng.choice(["letter", "name"])] for _ in range(rng.randint(0, 4))]
@@ -301,6 +301,11 @@ class DimSim(Engine):
         if f in ("append", "prepend", "insert"):
             if f == "insert":
                 p = pos % (len(model) + 1)
+                pyidx = p
+                if pos < 0 and len(model) > 0:
+                    # a negative position in -len..-1 means "before that element", as for a Python list
+                    pyidx = -((-pos - 1) % len(model)) - 1
+                    p = len(model) + pyidx
             new = D[dim]
             clash = st.LET[dim] in letters
             if f == "append":
@@ -311,7 +316,7 @@ class DimSim(Engine):
                 th = lambda: real.prepend(new, inplace=inplace)
             else:
                 exp = model[:p] + [dim] + model[p:]
-                th = lambda: real.insert(p, new, inplace=inplace)
+                th = lambda: real.insert(pyidx, new, inplace=inplace)
             return ("RAISE" if clash else exp), th
         if f in ("expand_by", "extend"):
             seen, ds = set(), []
@@ -624,7 +629,7 @@ class DimSim(Engine):
         return ["the ordered-list model in engines/dimsim.py states the property correctly",
                 "dimensions are compared by (letter, name, items, dtype), not by object identity",
                 "replace() with a new dimension of the same letter as the replaced one, expand_by with internal duplicates, "
-                "unknown keys and out-of-range insert positions are outside the property and not generated"]
+                "unknown keys and insert positions outside -len..len are outside the property and not generated (negative positions in range follow Python's list convention)"]
 
     def extra_coverage(self, prop, tier, results):
         n_table = sum(1 for r in results if r["task"]["kind"] == "table")
